@@ -96,6 +96,7 @@ structure SFacts (a : Ast) : Prop where
   enumConsts : ∀ n e, bget n a.types = some (.enum e) → ∀ v ∈ e.variants, bget v.name a.constants = some (.enumValue n v.name)
   constsWF : ∀ k e v, bget k a.constants = some (.enumValue e v) →
     v = k ∧ ∃ en, bget e a.types = some (.enum en) ∧ ∃ var ∈ en.variants, var.name = k
+  noC : bget "c" a.constants = none
 
 theorem sfacts_of_supported {a : Ast} (hs : Supported a = true) : SFacts a := by
   obtain ⟨hkeys, htypes, hcn, hec, hwf⟩ := Supported.facts hs
@@ -111,7 +112,7 @@ theorem sfacts_of_supported {a : Ast} (hs : Supported a = true) : SFacts a := by
     rw [ht] at h4
     simp only [Bool.and_eq_true, beq_iff_eq] at h4
     exact h4.1
-  refine ⟨hkn, ?_, ?_, ?_, ?_, ?_⟩
+  refine ⟨hkn, ?_, ?_, ?_, ?_, ?_, Supported.noC hs⟩
   · intro n ty hb
     exact (List.all_eq_true.mp htypes) (n, ty) (bget_mem hb)
   · intro k c hb
@@ -244,7 +245,7 @@ theorem label_int {a : Ast} (F : SFacts a) (swTy : BasicType) (sv : Val) (d : Na
             have hiv : (v : Int) = i := by omega
             have hpm : patMatches a (.guard e' v' (switchCastType a swTy).asSafeString) sv =
                 (match scrutInt sv with | some j => j == (v : Int) | none => false) := by
-              rcases hsv' with rfl | ⟨rfl, _⟩ <;> simp [patMatches, scrutInt, hdisc, hiv]
+              rcases hsv' with rfl | ⟨rfl, _⟩ <;> simp [patMatches, Ast.getConst, F.noC, scrutInt, hdisc, hiv]
             rw [hpm, hcmp]
 
 /-- a label of a bool-switched union (`TRUE` / `FALSE`) -/
@@ -310,7 +311,7 @@ theorem label_enum {a : Ast} (F : SFacts a) (swTy : BasicType) (nm : String) (e 
     rw [← this]
     exact hm
   have hiff := find_name_value e.variants hnames hvals l d ⟨w0, hw0, hw0n'⟩
-  simp only [matcherOf, Ast.getConst, hc, patMatches, hname, beq_self_eq_true, Bool.true_and, hlv]
+  simp only [matcherOf, Ast.getConst, hc, patMatches, F.noC, hname, beq_self_eq_true, Bool.true_and, hlv]
   by_cases hml : m = l
   · subst hml
     have := hiff.mpr hmn
